@@ -53,16 +53,16 @@ type stepObs struct {
 	Loaded  map[string]string `json:"loaded,omitempty"`
 	Partial bool              `json:"partial"`
 	coq     string
-	dyn     string // Coq term of the kdyn record of this step ("" = none)
+	dyn     string      // Coq term of the kdyn record of this step ("" = none)
 	DynJS   interface{} `json:"dyn,omitempty"`
 }
 
 type runner struct {
 	wantCoq bool
-	p     *pipeline.Pipeline
-	fake  *fakehaproxy.Fake
-	socks *fakehaproxy.Sockets
-	dir   string
+	p       *pipeline.Pipeline
+	fake    *fakehaproxy.Fake
+	socks   *fakehaproxy.Sockets
+	dir     string
 }
 
 var runSeq int
@@ -72,7 +72,7 @@ func newRunner(in input, tag string) (*runner, error) {
 	dir := filepath.Join(workdir, fmt.Sprintf("%s%d", tag, runSeq%4))
 	os.RemoveAll(dir)
 	r := &runner{dir: dir}
-	opt := pipeline.Options{Dir: dir + "/p", WatchWithoutClass: true, DefaultSSLCertificate: in.DefaultSecret}
+	opt := pipeline.Options{Dir: dir + "/p", WatchWithoutClass: true, DefaultSSLCertificate: in.DefaultSecret, AllowCrossNamespace: in.CrossNS}
 	if in.Socket {
 		if err := os.MkdirAll(dir+"/s", 0o755); err != nil {
 			return nil, err
@@ -268,7 +268,7 @@ func check(in input, res *hx.Result, count, wantCoq bool) ([]failure, []*stepObs
 		}
 		all = append(all, o)
 		c.apply(b)
-		v := newView(c.clone(), in.DefaultSecret)
+		v := newView(c.clone(), in.DefaultSecret, in.CrossNS)
 		bad := map[string]bool{}
 		for _, n := range sniNames {
 			e := v.expect(n)
@@ -431,7 +431,8 @@ func main() {
 	defer os.RemoveAll(workdir)
 	rng := o.Rng()
 	res := hx.NewResult("C15", "histories: initial cluster (3 namespaces, secrets tls-1/tls-2/tls-bad/tls-absent with content from 5 real ECDSA certificates or malformed, up to 5 ingresses with 0-2 rule hosts and 0-2 tls blocks over 7 hosts incl. 2 wildcards with exact siblings, foreign ns/name references) + 1..4 batches of secret add/replace/delete and ingress add/replace/delete, some with a second event for one object; observed per reconciliation: crt-list entries (content hashes) and the SNI-selected certificate for 14 names; non-trivial = at least one name served with a custom certificate and at least one partial reconciliation; distinct by history text")
-	cw := hx.NewCaseWriter(o, res, "From HI Require Import Corr.Corr_C15.", "kcase", 25)
+	os.MkdirAll(workdir, 0o755)
+	cw := hx.NewCaseWriter(o, res, casePrelude(), "kcase", 25)
 
 	type job struct {
 		in     input
@@ -448,9 +449,9 @@ func main() {
 		for _, in := range loadCorpus() {
 			jobs = append(jobs, job{in: in, corpus: true, corr: !o.Search})
 		}
-		nCorr := o.Count(170, 2500)
-		nWide := o.Count(60, 1500)
-		nSock := o.Count(30, 600)
+		nCorr := o.Count(300, 2500)
+		nWide := o.Count(100, 1500)
+		nSock := o.Count(50, 600)
 		if o.Search {
 			nCorr, nWide, nSock = o.Count(1500, 6000), o.Count(500, 2000), 200
 		}
@@ -462,6 +463,9 @@ func main() {
 			if i%3 == 0 {
 				in.DefaultSecret = "ns1/tls-2"
 			}
+			if i%4 == 1 {
+				in.CrossNS = true
+			}
 			jobs = append(jobs, job{in: in})
 		}
 		for i := 0; i < nSock; i++ {
@@ -470,17 +474,26 @@ func main() {
 	}
 
 	seenKeys := map[string]bool{}
+	certCmds, certCmdSteps := 0, 0
+	var certSample []interface{}
 	for ji, j := range jobs {
 		in := j.in
 		canon, _ := json.Marshal(in)
-		fails, obs, err := check(in, res, true, j.corr && in.DefaultSecret == "")
+		fails, obs, err := check(in, res, true, j.corr && in.DefaultSecret == "" && !in.CrossNS)
 		if err != nil {
 			res.Count("harness_error")
 			res.Fail(hx.Failure{Key: "C15/update-error", What: "running the history failed: " + err.Error(), Input: in})
 			continue
 		}
 		custom, partial := false, false
-		for _, so := range obs {
+		for si, so := range obs {
+			if len(so.Cmds) > 0 {
+				certCmds += len(so.Cmds)
+				certCmdSteps++
+				if len(certSample) < 3 {
+					certSample = append(certSample, map[string]interface{}{"batch": describe(in.History[si : si+1]), "commands": so.Cmds, "reloads": so.Reloads})
+				}
+			}
 			for _, c := range so.Served {
 				if c != fakeDefault {
 					custom = true
@@ -494,6 +507,9 @@ func main() {
 			res.Count("mode_socket")
 		} else if in.DefaultSecret != "" {
 			res.Count("mode_default_secret")
+		}
+		if in.CrossNS {
+			res.Count("mode_allow_cross_namespace")
 		}
 		for _, b := range in.History[min(1, len(in.History)):] {
 			for _, x := range b {
@@ -536,9 +552,18 @@ func main() {
 			}
 			res.Fail(hx.Failure{Key: f.key, What: f.what + " -- " + strings.Join(describe(m.History), " / "), Input: m, Observed: f.observed, Expected: f.expected})
 		}
-		if j.corr && in.DefaultSecret == "" {
+		if j.corr && in.DefaultSecret == "" && !in.CrossNS {
 			emitCase(cw, res, in, obs)
 		}
+	}
+	res.Extra["runtime"] = map[string]interface{}{
+		"what":                        "socket mode: real instance over unix sockets against lib/fakehaproxy; `set ssl cert` / `commit ssl cert` commands received",
+		"cert_commands":               certCmds,
+		"steps_with_cert_commands":    certCmdSteps,
+		"sample":                      certSample,
+		"content_only_steps":          res.Distribution["socket_content_only_steps"],
+		"content_only_without_reload": res.Distribution["socket_content_only_dynamic"],
+		"content_only_with_reload":    res.Distribution["socket_content_only_reloaded"],
 	}
 	cw.Flush()
 	res.Write(o)
